@@ -6,6 +6,7 @@ from hypothesis import strategies as st
 
 from vlib.runner import Part, Result
 from vlib import envlab as E
+from tradingenv.broker.broker import EndOfEpisodeError
 
 ID = "C10"
 RULE = ("Two generated configurations A and B per case (bar-shaped episodes over ETF / user spot / user margined / ES, or a FutureChain (ES, NK, "
@@ -155,6 +156,33 @@ def run(case):
     d = first_diff(ta, Stepper(A2, a["actions"], case["seed_a"]).run())
     if d:
         res.fail("a freshly built identical environment gives a different trace: " + d)
+    # (5) the same actions played through TradingEnv.backtest (the library's own episode loop) on that second build
+    if not any("exception" in s for s in ta) and len(ta) > 1:
+        from tradingenv.policy import AbstractPolicy
+
+        class Replay(AbstractPolicy):
+            def __init__(self, actions, kind, n):
+                self.actions, self.kind, self.n, self.k = actions, kind, n, 0
+
+            def act(self, state=None):
+                k = self.k
+                self.k += 1
+                if k < len(self.actions):
+                    return E.to_action(self.actions[k], self.kind)
+                return E.to_action(self.actions[-1], self.kind)      # (beyond the compared prefix)
+
+        np.random.seed(case["seed_a"])
+        try:
+            track = A2.env.backtest(fold=E.fold_name(a), policy=Replay(a["actions"], a.get("action_type", "array64"), len(a["contracts"])))
+            got = [E.rebalancing_key(track[i]) for i in range(len(track))]
+        except EndOfEpisodeError:
+            got = None          # (the tail beyond the compared prefix ruined the account on entry to a step: C09's business)
+        want = [s["reb"] for s in ta[1:] if s.get("reb") is not None]
+        if got is not None and got[:len(want)] != want:
+            k = next((i for i, (x, y) in enumerate(zip(got, want)) if x != y), min(len(got), len(want)))
+            res.fail("TradingEnv.backtest with a policy replaying the same actions records a different execution %d than the reset/step loop "
+                     "(%d vs %d entries compared)" % (k, len(got), len(want)))
+        res.tag("backtest-loop-compared")
     # (2) same env after a prefix
     pk = case["prefix"]["kind"]
     env = A1.env
